@@ -188,10 +188,31 @@ def c06_3(c: Ctx) -> None:
                 c.fail(u, f'unclassified task payload {U(pl)[:70]}', 'a task-creation site whose payload the analysis cannot classify (may inherit lock ownership)', node=call)
 
 
+def _resets_lock_flag(c: Ctx, fn: Unit) -> bool:
+    return any(isinstance(x, ast.Call) and call_name(x) == 'set' and isinstance(x.func, ast.Attribute) and U(x.func.value) == 'holds_global_lock' and x.args
+               and isinstance(x.args[0], ast.Constant) and x.args[0].value is False for x in own_nodes(fn.node))
+
+
 def check_runloop_task(c: Ctx, u: Unit, call: ast.Call, rl: Unit) -> None:
-    if q.kw(call, 'context') is not None:
-        c.ok(where(u, call), 'run-loop task created with an explicit context=')
-        return
+    """The run-loop task must start without lock ownership: a fresh Context(), a prepared copy in which holds_global_lock was
+    reset, or a reset at the start of the run loop before its first await / step."""
+    ctx = q.kw(call, 'context')
+    if ctx is not None:
+        if isinstance(ctx, ast.Call) and U(ctx.func) in ('contextvars.Context', 'Context') and not ctx.args:
+            c.ok(where(u, call), 'run-loop task created in a fresh, empty Context()')
+            return
+        if isinstance(ctx, ast.Name):
+            defs = [n for n in own_nodes(u.node) if isinstance(n, ast.Assign) and U(n.targets[0]) == ctx.id]
+            runs = [n for n in own_nodes(u.node) if isinstance(n, ast.Call) and call_name(n) == 'run' and isinstance(n.func, ast.Attribute) and U(n.func.value) == ctx.id and n.args and n.lineno < call.lineno]
+            if defs and all(isinstance(d.value, ast.Call) and U(d.value.func) in ('contextvars.Context', 'Context') for d in defs):
+                c.ok(where(u, call), 'run-loop task created in a fresh, empty Context()')
+                return
+            for r in runs:
+                fn = c.prog.resolve_name_callee(U(r.args[0]), u) if isinstance(r.args[0], ast.Name) else None
+                if fn is not None and _resets_lock_flag(c, fn):
+                    c.ok(where(u, call), f'run-loop task created in a copied context prepared by {fn.name}(), which resets holds_global_lock')
+                    return
+        # an explicit context that still carries the creator's lock flag: fall through to the reset-in-run-loop check
     g = c.cfg(rl)
     resets = [n for n in g.live_nodes() if any(call_name(x) == 'set' and U(x.func.value) == 'holds_global_lock' and x.args and isinstance(x.args[0], ast.Constant) and x.args[0].value is False for x in q.node_calls(n))]
     from sa.cfg import search
@@ -201,7 +222,8 @@ def check_runloop_task(c: Ctx, u: Unit, call: ast.Call, rl: Unit) -> None:
     if p is None and resets:
         c.ok(where(u, call), 'run-loop task inherits the creator context but resets holds_global_lock before its first await')
     else:
-        c.fail(u, f'run-loop task inherits the creator context: {U(call)[:80]}', 'a bus first used inside a handler inherits "I hold the lock" and is exempt from the global lock for life: its handlers overlap other buses\'', node=call,
+        how = f'explicit context={U(ctx)[:40]} in which holds_global_lock is not reset' if ctx is not None else 'inherits the creator context'
+        c.fail(u, f'run-loop task can start with lock ownership ({how}): {U(call)[:70]}', 'a bus first used inside a handler inherits "I hold the lock" and is exempt from the global lock for life: its handlers overlap other buses\'', node=call,
                witness=c.path(g.entry, p) if p else [])
 
 
@@ -232,12 +254,26 @@ def check_handler_task(c: Ctx, u: Unit, call: ast.Call, pl: ast.Call) -> None:
         c.ok(where(u, call), f'handler task `{t}` is cancelled-if-not-done on every exit of {u.name} (cannot outlive lock ownership)')
     else:
         c.fail(u, f'handler task {t} not cancelled on some exit', 'a handler task can keep running after execute_handler returned, overlapping the next event', node=call, witness=c.path(bad[0], bad[1]))
-    # the cancel is awaited (bounded)
-    fin_awaits = [n for n in own_nodes(u.node) if isinstance(n, ast.Await) and t in U(n.value) and any(isinstance(a, ast.Try) and q.lexically_in(n, a, 'finalbody') for a in q.ancestors_of(n))]
-    if fin_awaits:
-        c.ok(where(u, fin_awaits[0]), f'cancelled handler task is awaited in the finally block: `{U(fin_awaits[0])[:70]}`')
-    else:
-        c.fail(u, f'cancelled handler task {t} is not awaited', 'cancellation of the handler task is requested but not waited for', node=call)
+    # the task is *joined*: awaited by a construct that only returns/raises once the task has finished
+    # (`await task`, `await asyncio.wait_for(task, ..)` — wait_for cancels the task on timeout and waits for that to complete;
+    #  `asyncio.wait({task}, timeout=..)` merely stops waiting and is not a join)
+    def is_join(a: ast.Await) -> bool:
+        v = a.value
+        if isinstance(v, ast.Name) and v.id == t:
+            return True
+        return isinstance(v, ast.Call) and U(v.func) in ('asyncio.wait_for', 'wait_for', 'asyncio.shield') and bool(v.args) and U(v.args[0]) == t
+
+    aw = [n for n in own_nodes(u.node) if isinstance(n, ast.Await) and t in {x.id for x in ast.walk(n.value) if isinstance(x, ast.Name)}]
+    fin_awaits = [n for n in aw if any(isinstance(a, ast.Try) and q.lexically_in(n, a, 'finalbody') for a in q.ancestors_of(n))]
+    main_awaits = [n for n in aw if n not in fin_awaits]
+    for grp, what in ((main_awaits, 'the await on the handler task'), (fin_awaits, 'the cleanup await after cancel()')):
+        if not grp:
+            c.fail(u, f'{what} is missing', 'the handler task is never waited for: it keeps running after execute_handler returned, overlapping the next event', node=call)
+        for n in grp:
+            if is_join(n):
+                c.ok(where(u, n), f'{what} joins the task: `{U(n)[:70]}`')
+            else:
+                c.fail(u, f'{what} does not join the task: {U(n)[:70]}', 'execute_handler can return while the (cancelled / timed-out) handler coroutine is still running: the lock is released and the next event\'s handler overlaps it', node=n)
 
 
 @ob('C06.4', 'DOM', 'the branch of _execute_handlers that runs handlers as concurrent tasks is guarded by self.parallel_handlers')
